@@ -45,6 +45,7 @@ def axis_points(grid, log=False, fine=False):
     pts.append(('below', inv(g[0] - 0.3 * span) if log else float(g[0] * 0.5)))
     pts.append(('min', float(grid[0])))
     pts.append(('q1', inv(g[0] + 0.25 * (g[1] - g[0]))))
+    pts.append(('third', inv(g[0] + (g[1] - g[0]) / 3.0)))       # not a whole number on whole-number axes
     pts.append(('half', inv(g[0] + 0.5 * (g[1] - g[0]))))
     if len(g) > 2:
         pts.append(('node', float(grid[1])))
